@@ -79,3 +79,37 @@ def gen_topk(items):
             raise Fail(f'{path}: the block-max (fieldnorm_id, term_freq) pair is no longer the max_by of Bm25Weight::tf_factor over the block')
         return D('BLOCKWAND_PAIR_IS_ARGMAX_TF_FACTOR', 1, 'serializer: blockwand_params = max_by tf_factor over the block, written with write_blockwand_max')
     items.append(blockwand_pair)
+    def collector_shape():
+        # the collector skeleton the model `search` / `mergeTopK` / `heapCb` / `heapCbA` mirrors
+        path = 'src/collector/sort_key_top_collector.rs'
+        flat = re.sub(r'\s+', '', strip_comments(src(path)))
+        want = {
+            'for_segment sizes the TopNComputer by doc_range.end (= offset + limit)':
+                'TopNComputer::new_with_comparator(self.doc_range.end,self.sort_key_computer.comparator(),)',
+            'collect_segment collects k = doc_range.end':
+                'letk=self.doc_range.end;letdocs=self.sort_key_computer.collect_segment_top_k(k,weight,reader,segment_ord)?;',
+            'merge_fruits = merge_top_k over all fruits with the collector comparator':
+                'merge_top_k(segment_fruits.into_iter().flatten(),self.doc_range.clone(),self.sort_key_computer.comparator(),)',
+            'merge_top_k sorts all fruits by (comparator desc, address asc)':
+                'all.sort_by(|lhs,rhs|{comparator.compare(&lhs.0,&rhs.0).reverse().then_with(||lhs.1.cmp(&rhs.1))});',
+            'merge_top_k = skip(start).take(end - start)':
+                'all.into_iter().skip(doc_range.start).take(doc_range.end-doc_range.start).collect()',
+        }
+        for what, frag in want.items():
+            if frag not in flat:
+                raise Fail(f'{path}: {what}: shape not found (Model/TopN.lean::search / mergeTopK mirror it)')
+        path2 = 'src/collector/sort_key/sort_by_score.rs'
+        flat2 = re.sub(r'\s+', '', strip_comments(src(path2)))
+        want2 = {
+            'the score path collects into TopNHeap::new(k)': 'letmuttop_n=TopNHeap::new(k);',
+            'deletes-aware callback: a deleted document returns the old threshold':
+                'ifalive_bitset.is_deleted(doc){returnthreshold;}top_n.push(score,doc);threshold=top_n.threshold.unwrap_or(Score::MIN);threshold',
+            'plain callback: push, return the heap threshold':
+                'weight.for_each_pruning(Score::MIN,reader,&mut|doc,score|{top_n.push(score,doc);top_n.threshold.unwrap_or(Score::MIN)})?;',
+            'TopNHeap::push replaces the minimum only for score > threshold': 'ifscore>threshold{',
+        }
+        for what, frag in want2.items():
+            if frag not in flat2:
+                raise Fail(f'{path2}: {what}: shape not found (Proofs/WandHeap.lean::heapCb / heapCbA mirror it)')
+        return D('COLLECTOR_SHAPE', 1, 'per-segment capacity = doc_range.end on both entry points; merge = sort all fruits, skip, take; score path = TopNHeap callback (deletes-aware)')
+    items.append(collector_shape)
